@@ -498,7 +498,7 @@ def rule_parens(crate):
     of expression at (or below) the call level — the levels that bind tighter than every prefix, infix and postfix
     operator.  Anything built at an operator level (unary minus, factorial, binary operators, if-then-else) printed
     bare next to another operator is re-read with a different structure (`(3!)!` -> `3!!`)."""
-    from hirlib import pat_variants
+    from hirlib import pat_variants, strip_generics
 
     out = RuleOut("PARENS", "sub-expressions printed without parentheses are exactly kinds the parser builds at the call/primary levels")
     lc = level_chain(crate)
@@ -552,6 +552,180 @@ def rule_parens(crate):
                 out.ok(key, af, al, "printed bare; built by the parser at depth %d >= call level %d" % (built[av], threshold))
             else:
                 out.violation(key, af, al, "Expression::%s is printed without parentheses in operand position, but the parser builds it at an operator level (depth %d, above the call level %d): next to another operator the echoed text is re-read with a different structure (e.g. `(3!)!` echoed as `3!!`)" % (v, built[av], threshold))
-    out.analysed = {"arms": n, "call_level_depth": threshold, "levels": len(depth), "operator_level_variants": sorted(operator_levels)}
+    # ---- sugar forms: a kind that with_parens leaves bare must not PRINT as an operator expression.  In the printing
+    # arm of such a kind, an emitted operator/keyword whose token is consumed by a level looser than `call` (->, +, …)
+    # is allowed only for the callee names that with_parens (or a predicate it calls in a guard) parenthesises.
+    op_kinds = set()
+    for nm, lv in levels.items():
+        if nm in depth and depth[nm] < threshold:
+            for e in lv.events:
+                if e[1] == "match":
+                    op_kinds |= set(e[2])
+    tok = tokenizer_map(crate)
+    op_spellings = {sp for sp, kd in tok.items() if kd in op_kinds}
+    printers = [b for d, b in crate.hir.items() if d.endswith("::pretty_print") and strip_generics(b.get("impl_self") or "").endswith("typed_ast::Expression")]
+
+    def str_lits(e):
+        out_ = set()
+        for y in walk(e):
+            if y.get("k") == "Lit" and isinstance(y.get("lit"), dict) and y["lit"].get("lk") == "str":
+                out_.add(y["lit"]["v"])
+        return out_
+
+    # names parenthesised by with_parens: literals in guards of non-bare arms and in crate-local predicates they call
+    paren_names = set()
+    for a in m["arms"]:
+        body = peel(a["body"])
+        bare = not any(y.get("k") == "Lit" and isinstance(y.get("lit"), dict) and y["lit"].get("v") == "(" for y in walk(body))
+        if bare or "guard" not in a:
+            continue
+        paren_names |= str_lits(a["guard"])
+        for y in walk(a["guard"]):
+            if y.get("k") in ("Call", "MethodCall"):
+                cb = crate.hir.get(callee(y) or "")
+                if cb is not None:
+                    paren_names |= str_lits(cb["body"])
+                    for z in walk(cb["body"]):
+                        if z.get("k") in ("Call", "MethodCall"):
+                            cb2 = crate.hir.get(callee(z) or "")
+                            if cb2 is not None:
+                                paren_names |= str_lits(cb2["body"])
+    bare_variants = set()
+    for a in m["arms"]:
+        vs = pat_variants(a["pat"], TYPED_E)
+        body = peel(a["body"])
+        bare = not any(y.get("k") == "Lit" and isinstance(y.get("lit"), dict) and y["lit"].get("v") == "(" for y in walk(body))
+        if vs and bare:
+            bare_variants |= vs
+    n_sugar = 0
+    if printers:
+        pfn = printers[0]
+        from errd import parent_map
+
+        pm = parent_map(pfn["body"])
+        for pmatch in walk(pfn["body"]):
+            if pmatch.get("k") != "Match" or str(pmatch.get("src")) != "Normal":
+                continue
+            for a in pmatch["arms"]:
+                vs = pat_variants(a["pat"], TYPED_E)
+                if not vs or not (vs & bare_variants):
+                    continue
+                for c in walk(a["body"]):
+                    if c.get("k") != "Call" or not (callee(c) or "").startswith("crate::markup::"):
+                        continue
+                    lit = peel_refs(c["args"][0]) if c.get("args") else {}
+                    if lit.get("k") != "Lit" or not isinstance(lit.get("lit"), dict) or lit["lit"].get("v") not in op_spellings:
+                        continue
+                    n_sugar += 1
+                    # names this emission is conditional on: literals compared in the enclosing `if`s
+                    cond_names = set()
+                    cur = c
+                    while id(cur) in pm and pm[id(cur)] is not a:
+                        p = pm[id(cur)]
+                        if p.get("k") == "If":
+                            cond_names |= str_lits(p["cond"])
+                        cur = p
+                    cf, cl = crate.loc(pfn, c)
+                    v = sorted(vs & bare_variants)[0]
+                    key = "sugar:%s:%s#%d" % (v, lit["lit"]["v"], cl)
+                    key = "sugar:%s:%s" % (v, "+".join(sorted(cond_names)) or "unconditional")
+                    missing = sorted(cond_names - paren_names)
+                    if cond_names and not missing:
+                        out.ok(key, cf, cl, "printed with the operator `%s` only for callee names that with_parens parenthesises" % lit["lit"]["v"])
+                    elif not cond_names:
+                        out.violation(key, cf, cl, "Expression::%s is left bare by with_parens but its printer emits the operator `%s` unconditionally: as an operand it is re-read with a different structure" % (v, lit["lit"]["v"]))
+                    else:
+                        out.violation(key, cf, cl, "Expression::%s is left bare by with_parens, but for the callee name(s) %s its printer emits the sugar form with the operator `%s` (`x %s °C`), which is not an atomic expression: `(300 K -> °C) + 1` is echoed as `300 kelvin -> °C + 1`" % (v, missing, lit["lit"]["v"], lit["lit"]["v"]))
+    out.analysed = {"arms": n, "call_level_depth": threshold, "levels": len(depth), "operator_level_variants": sorted(operator_levels), "sugar_emissions": n_sugar, "parenthesised_names": len(paren_names)}
     out.floor("arms", n, 12)
+    return out
+
+
+# ---------------------------------------------------------------- printer details found by reading echo output
+def rule_printfields(crate):
+    """(a) STRUCTDEF: the printer of `struct` definitions uses name, kind (the type parameter list) and fields of the
+    StructInfo it prints — a field skipped by `..` is silently missing from the echo.
+    (b) EXPFMT: in the printer of dimension expressions, the exponent of `^` is written without parentheses only under
+    an `is_integer()` test (a rational `1/2` printed bare reads back as `(X^1)/2`)."""
+    from hirlib import pat_variants, strip_generics
+
+    out = RuleOut("PRINTFIELDS", "the printers of struct definitions and of dimension-expression exponents lose nothing")
+    # (a)
+    fns = [b for d, b in crate.hir.items() if d.endswith("::pretty_print") and strip_generics(b.get("impl_self") or "").endswith("typed_ast::Statement")]
+    if not fns:
+        out.error("anchor missing: <typed_ast::Statement as PrettyPrint>::pretty_print")
+        return out
+    fn = fns[0]
+    f = crate.file_of(fn)
+    arm = None
+    for m in walk(fn["body"]):
+        if m.get("k") == "Match" and str(m.get("src")) == "Normal":
+            for a in m["arms"]:
+                if pat_variants(a["pat"], "crate::typed_ast::Statement") == {"DefineStruct"}:
+                    arm = a
+    if arm is None:
+        out.error("anchor missing: DefineStruct arm of the statement printer")
+    else:
+        bound = {}
+        for p in walk(arm["pat"]):
+            if p.get("k") == "Struct" and (p.get("adt") or "").endswith("StructInfo"):
+                for it in p.get("fields", []) or []:
+                    if isinstance(it, list) and len(it) == 2:
+                        for q in walk(it[1]):
+                            if q.get("k") == "Binding":
+                                bound[str(it[0])] = q["id"]
+            if p.get("k") == "Binding" and crate.ty(p).replace("&", "").strip().endswith("StructInfo"):
+                bound["*"] = p["id"]
+        used = {x["res"]["id"] for x in walk(arm["body"]) if x.get("k") == "Path" and x["res"].get("r") == "local"}
+        af, al = crate.loc(fn, arm["pat"])
+        for fld in ("name", "kind", "fields"):
+            key = "struct-definition:%s" % fld
+            if "*" in bound:
+                # whole struct bound: the field must be read somewhere
+                reads = any(x.get("k") == "Field" and x.get("name") == fld for x in walk(arm["body"]))
+                ok = reads
+            else:
+                ok = fld in bound and bound[fld] in used
+            if ok:
+                out.ok(key, af, al, "StructInfo.%s is used by the printer" % fld)
+            else:
+                out.violation(key, af, al, "the printer of struct definitions does not use StructInfo.%s%s: the echoed definition no longer says the same as the input" % (fld, " (the type parameter list `<D: Dim, …>`)" if fld == "kind" else ""))
+    # (b)
+    tfns = [b for d, b in crate.hir.items() if d.endswith("::pretty_print") and strip_generics(b.get("impl_self") or "").endswith("ast::TypeExpression")]
+    if not tfns:
+        out.error("anchor missing: <ast::TypeExpression as PrettyPrint>::pretty_print")
+        return out
+    tf = tfns[0]
+    parm = None
+    for m in walk(tf["body"]):
+        if m.get("k") == "Match" and str(m.get("src")) == "Normal":
+            for a in m["arms"]:
+                if pat_variants(a["pat"], "crate::ast::TypeExpression") == {"Power"}:
+                    parm = a
+    if parm is None:
+        out.error("anchor missing: Power arm of the dimension-expression printer")
+        return out
+    pf, pl = crate.loc(tf, parm["pat"])
+    ifs = [x for x in walk(parm["body"]) if x.get("k") == "If" and x.get("else") is not None]
+    decided = False
+    for i in ifs:
+        def has_paren(e):
+            return any(y.get("k") == "Lit" and isinstance(y.get("lit"), dict) and y["lit"].get("v") == "(" for y in walk(e))
+        bare_then, bare_else = not has_paren(i["then"]), not has_paren(i["else"])
+        if bare_then == bare_else:
+            continue
+        decided = True
+        tests = {y["name"] for y in walk(i["cond"]) if y.get("k") == "MethodCall"}
+        negated = any(y.get("k") == "Unary" and y.get("op") == "Not" for y in walk(i["cond"]))
+        if "is_integer" in tests and (bare_then or negated):
+            out.ok("type-exponent:bare-only-if-integer", pf, pl, "the exponent is written without parentheses only under an is_integer() test (%s)" % sorted(tests))
+        else:
+            out.violation("type-exponent:bare-only-if-integer", pf, pl, "the exponent of a dimension expression is written without parentheses under the test %s, which does not include is_integer(): `Length^(1/2)` is echoed as `Length^1/2`" % sorted(tests))
+    if not decided:
+        any_paren = any(y.get("k") == "Lit" and isinstance(y.get("lit"), dict) and y["lit"].get("v") == "(" for y in walk(parm["body"]))
+        if any_paren:
+            out.ok("type-exponent:bare-only-if-integer", pf, pl, "the exponent is always parenthesised")
+        else:
+            out.violation("type-exponent:bare-only-if-integer", pf, pl, "the exponent of a dimension expression is never parenthesised")
+    out.analysed = {"struct_fields": 3, "power_arm_ifs": len(ifs)}
     return out
